@@ -1,10 +1,12 @@
-import PP.Lemmas.HtmlDocLemmas
+import PP.Lemmas.HtmlDocHref
 /-
 C17  HTML rendering is injection-safe and complete.
 
 Model: PP/Model/Html.lean (escapers of html/template, URL builders of
-stack/html.go, the content division as literals + holes).  The escaper pipeline
-of every hole of the real template is pinned in PP/Tie/Html.lean.
+stack/html.go, the content division as literals + holes) and
+PP/Model/HtmlDoc.lean (the rest of the document: head with the favicon link,
+Metadata section, legend, footer).  The escaper pipeline of every hole of the
+real template is pinned in PP/Tie/Html.lean.
 -/
 namespace PP.C17
 open PP PP.Bytes PP.Html
@@ -193,6 +195,111 @@ theorem content_markup_is_template_markup_aggregated (ver : Bytes) (bs : List Bu
     ∃ r, renderPieces ps = .ok r ∧ markup r = markup (litsOf ps).flatten :=
   renderPieces_spec ps (bucketBlocks_spec ver bs 0 ps h).wf
 
+/-! ### The whole document: head, Metadata section, legend, footer -/
+
+/-- (9) The whole document renders for every data map — goroutines or buckets,
+and every metadata value (arbitrary bytes in the root paths, the map keys and
+values, the time and version strings, the favicon and the footer) — unless the
+runtime version is a `devel +` one shorter than 17 bytes (html.go:142). -/
+theorem doc_renders (d : DocData) (hv : hasPrefix d.ver develPrefix = false ∨ 17 ≤ d.ver.length) :
+    ∃ ps r, docPieces d = .ok ps ∧ renderDoc d = .ok r := by
+  obtain ⟨ps, hps⟩ := docPieces_ok d hv
+  obtain ⟨r, _, hr, _⟩ := renderWithFooter_spec ps d.footer (docPieces_spec d ps hps).2
+  exact ⟨ps, _, hps, by rw [renderDoc_eq d ps hps, hr]⟩
+
+/-- (10) The markup bytes (`<`, `>`, `"`, `'`, NUL, in order) of the whole
+rendered document are those of the template's literal text nodes written on the
+way, then those of the caller's footer (a `template.HTML`, written as is), then
+those of the closing text node: neither dump text nor any metadata value
+contributes one.  Every literal written is one of the text nodes of the
+template (`docLits`; pinned against the extracted template in PP/Tie/Html.lean:
+the short nodes byte for byte, the four long ones — `<meta>` block, style sheet,
+legend — by length). -/
+theorem doc_markup_is_template_markup (d : DocData) (ps : List Piece) (h : docPieces d = .ok ps) :
+    ∃ r, renderDoc d = .ok r ∧
+      markup r = markup (litsOf ps).flatten ++ markup d.footer ++ markup Lit.t54 ∧
+      inS docLits (litsOf ps) = true := by
+  obtain ⟨hl, hwf⟩ := docPieces_spec d ps h
+  obtain ⟨r, _, hr, hm⟩ := renderWithFooter_spec ps d.footer hwf
+  exact ⟨_, by rw [renderDoc_eq d ps h, hr], hm, hl⟩
+
+/-- (10') The document is head, content division, Metadata section and legend,
+footer, closing node, and the content division is the one of the theorems (8). -/
+theorem doc_shape (d : DocData) (ps : List Piece) (h : docPieces d = .ok ps) :
+    ∃ c, contentOf d.ver d.body = .ok c ∧ ps = headPieces d.toDocMeta ++ c ++ metaPieces d.ver d.toDocMeta ∧
+      renderDoc d = renderWithFooter ps d.footer :=
+  let ⟨c, hc, he⟩ := docPieces_eq d ps h
+  ⟨c, hc, he, renderDoc_eq d ps h⟩
+
+/-- (11) The holes of the Metadata section: exactly the values `metaVals` (time,
+version, GOROOT(s), every GOPATH, every key and value of the go.mod map,
+GOMAXPROCS), each in a text hole (escaper `_html_template_htmlescaper`, pinned
+by `pin_metadata_holes`); each renders, for arbitrary bytes, without `<`, `>`,
+`"`, `'`, NUL and with every `&` starting a character reference; and the rendered
+section has the markup bytes of its literals only, every `&` in it a reference. -/
+theorem metadata_holes_safe (ver : Bytes) (m : DocMeta) :
+    holesOf (metaPieces ver m) = (metaVals ver m).map (fun v => (HoleKind.text, v)) ∧
+    (∀ kv ∈ holesOf (metaPieces ver m), kv.1 = .text ∧ ∃ r, renderHole kv.1 kv.2 = .ok r ∧ textSafe r = true) ∧
+    ∃ r, renderMeta ver m = .ok r ∧ markup r = markup (litsOf (metaPieces ver m)).flatten ∧ ampOK r = true := by
+  refine ⟨metaPieces_holes ver m, ?_, ?_⟩
+  · intro kv hkv
+    rw [metaPieces_holes, List.mem_map] at hkv
+    obtain ⟨v, _, rfl⟩ := hkv
+    exact ⟨rfl, _, rfl, textSafe_htmlReplacer v⟩
+  · obtain ⟨r, hr, hm⟩ := renderPieces_spec (metaPieces ver m) (metaPieces_wf ver m)
+    refine ⟨r, hr, hm, renderPieces_ampOK _ ?_ ?_ r hr⟩
+    · exact all_of_inS _ _ _ metaLits_ampOK (metaPieces_lits ver m)
+    · simp [noClsHole, metaPieces_holes]
+
+/-- (11') every metadata string is among the printed values -/
+theorem metadata_complete (ver : Bytes) (m : DocMeta) :
+    m.now ∈ metaVals ver m ∧ ver ∈ metaVals ver m ∧ m.remoteGOROOT ∈ metaVals ver m ∧
+    (∀ p ∈ m.localGOPATHs, p ∈ metaVals ver m) ∧
+    (∀ kv ∈ m.localGomods, kv.1 ∈ metaVals ver m ∧ kv.2 ∈ metaVals ver m) ∧
+    natToDec m.gomaxprocs ∈ metaVals ver m := by
+  refine ⟨by simp [metaVals], by simp [metaVals], ?_, ?_, ?_, by simp [metaVals]⟩
+  · simp only [metaVals, gorootVals]; split <;> simp
+  · intro p hp; simp [metaVals, hp]
+  · intro kv hkv
+    constructor
+    · simp only [metaVals, List.mem_append, List.mem_flatMap]
+      exact Or.inl (Or.inr ⟨kv, hkv, by simp⟩)
+    · simp only [metaVals, List.mem_append, List.mem_flatMap]
+      exact Or.inl (Or.inr ⟨kv, hkv, by simp⟩)
+
+/-- (12) The only `data:` URL of the document is the favicon link.  Every
+attribute of the template is double-quoted and no hole emits a quote, so an
+attribute value starting with `data:` appears in the bytes as `"data:`.  In
+everything written before the footer that string occurs exactly once, at the end
+of text node 1 (`<link rel="shortcut icon" type="image/gif" href="data:image/gif;base64,`),
+and what follows it up to the closing quote is the favicon constant through
+`urlnormalizer, attrescaper`; `"javascript:` does not occur at all.  In the whole
+document any further occurrence lies in the caller's footer. -/
+theorem only_data_url_is_favicon (d : DocData) (ps : List Piece) (h : docPieces d = .ok ps) :
+    ∃ r rest, renderPieces ps = .ok r ∧ renderDoc d = .ok (r ++ d.footer ++ Lit.t54) ∧
+      r = Lit.t0 ++ Lit.t1 ++ attrEscaper (urlNormalizer d.favicon) ++ Lit.t2 ++ rest ∧
+      hasSuffix Lit.t1 b!"<link rel=\"shortcut icon\" type=\"image/gif\" href=\"data:image/gif;base64," = true ∧
+      occ b!"\"data:" r = 1 ∧
+      occ b!"\"javascript:" r = 0 ∧
+      occ b!"\"data:" (r ++ d.footer ++ Lit.t54) = 1 + occ b!"\"data:" (d.footer ++ Lit.t54) ∧
+      occ b!"\"javascript:" (r ++ d.footer ++ Lit.t54) = occ b!"\"javascript:" (d.footer ++ Lit.t54) := by
+  obtain ⟨hl, hwf⟩ := docPieces_spec d ps h
+  obtain ⟨r, hr, hdoc, _⟩ := renderWithFooter_spec ps d.footer hwf
+  obtain ⟨rest, hrest⟩ := docPieces_head d ps h r hr
+  refine ⟨r, rest, hr, by rw [renderDoc_eq d ps h, hdoc], hrest, t1_ends_with_favicon_link, ?_, ?_, ?_, ?_⟩
+  · have := occ_data_doc d ps h r hr []; rw [List.append_nil] at this; exact this
+  · have := occ_javascript_doc d ps h r hr []; rw [List.append_nil] at this; exact this
+  · rw [List.append_assoc]; exact occ_data_doc d ps h r hr _
+  · rw [List.append_assoc]; exact occ_javascript_doc d ps h r hr _
+
+/-- (12') The URL holes of the document: the favicon, and the links of the
+content division, each of which renders to the empty string or to a value that
+starts with a fixed `https://…/` or `file:///` prefix. -/
+theorem url_holes_fixed_scheme (d : DocData) (ps : List Piece) (h : docPieces d = .ok ps) :
+    ∃ rest, (holesOf ps).filter (fun kv => kv.1 == .href) = (.href, d.favicon) :: rest ∧
+      ∀ kv ∈ rest, ∃ r, renderHole .href kv.2 = .ok r ∧ startsWithOneOf allSchemes r = true :=
+  docPieces_hrefs d ps h
+
 /-! Non-vacuity -/
 
 example : htmlEscaper b!"<a href=\"x\">&'+" = b!"&lt;a href=&#34;x&#34;&gt;&amp;&#39;&#43;" := by decide
@@ -209,6 +316,56 @@ example : ∃ ps, contentSnapshot b!"go1.23.5"
     (litsOf ps).count Lit.h1Goroutine = 2 ∧ (litsOf ps).count Lit.c1 = 2 ∧ (litsOf ps).count Lit.c18 = 1 := by
   refine ⟨_, rfl, ?_⟩
   decide
+
+set_option maxRecDepth 100000 in
+/-- hostile metadata (`hostileMeta`: `</script><script>…` as GOROOT, `" onmouseover="` in
+the local GOROOT, `javascript:` and `data:` in the go.mod map, quotes and a
+comment opener as GOPATHs), evaluated: the Metadata list up to the GOMAXPROCS
+value; every value is character data -/
+example : renderPieces (metaListPieces b!"go1.23.5<" hostileMeta) = .ok (
+    Lit.t37 ++ b!"2026-09-29 12:00:00 &#43;0000 UTC" ++ Lit.t38 ++ b!"go1.23.5&lt;" ++ Lit.t39 ++
+    Lit.t40 ++ b!"&lt;/script&gt;&lt;script&gt;alert(1)&lt;/script&gt;" ++
+    Lit.t41 ++ b!"/usr/local/go&#34; onmouseover=&#34;alert(1)" ++ Lit.t42 ++
+    Lit.t45 ++ b!"/home/u/go, &#39; onload=&#39;x, &lt;!--" ++ Lit.t46 ++
+    Lit.t47 ++ Lit.t48 ++ b!"javascript:alert(1)" ++ Lit.t49 ++ b!"&lt;img src=x onerror=alert(1)&gt;" ++ Lit.t50 ++
+    Lit.t48 ++ b!"/p&amp;q" ++ Lit.t49 ++ b!"data:text/html,&lt;b&gt;" ++ Lit.t50 ++ Lit.t51 ++
+    Lit.t52 ++ b!"8") := by decide
+set_option maxRecDepth 100000 in
+/-- the same, as readable text -/
+example : renderPieces (gorootPieces hostileMeta ++ gomodPieces hostileMeta) = .ok
+    b!"<li>GOROOT (remote): &lt;/script&gt;&lt;script&gt;alert(1)&lt;/script&gt;</li>\n<li>GOROOT (local): /usr/local/go&#34; onmouseover=&#34;alert(1)</li><li>go modules (local):\n<ul><li>javascript:alert(1): &lt;img src=x onerror=alert(1)&gt;</li><li>/p&amp;q: data:text/html,&lt;b&gt;</li></ul>\n</li>" := by
+  decide
+set_option maxRecDepth 100000 in
+/-- the hostile list has exactly the markup bytes of its benign twin (`benignMeta`, same shape) -/
+example : (renderPieces (metaListPieces b!"go1.23.5<" hostileMeta)).map markup =
+    (renderPieces (metaListPieces b!"go1.23.5" benignMeta)).map markup := by decide
+set_option maxRecDepth 100000 in
+/-- no `"javascript:` / `"data:` although both words occur as text -/
+example : (renderPieces (metaListPieces b!"go1.23.5<" hostileMeta)).map
+    (fun r => (occ b!"\"data:" r, occ b!"\"javascript:" r, occ b!"data:" r, occ b!"javascript:" r)) = .ok (0, 0, 1, 1) := by
+  decide
+set_option maxRecDepth 100000 in
+/-- GOROOT: one line when the local root is empty or equal, no GOPATH / go.mod items when there are none -/
+example : renderPieces (metaListPieces b!"v" { now := b!"t", remoteGOROOT := b!"/r", localGOROOT := b!"/r" }) = .ok
+    b!"</div>\n<h2>Metadata</h2>\n<ul>\n<li>Created on t</li>\n<li>v</li><li>GOROOT: /r</li><li>GOPATH: </li><li>GOMAXPROCS: 1" := by
+  decide
+/-- a hostile favicon value cannot leave the attribute; the real one only has `+` rewritten -/
+example : (faviconHole b!"\"><script>alert(1)</script>").render = .ok b!"%22%3e%3cscript%3ealert%281%29%3c/script%3e" := by
+  decide
+example : (faviconHole b!"R0lGOD+/=").render = .ok b!"R0lGOD&#43;/=" := by decide
+/-- whole documents: the hypotheses of (9)–(12) are satisfiable for hostile data -/
+example : ∃ ps r, docPieces { hostileMeta with ver := b!"go1.23.5<", body := .snapshot hostileGs } = .ok ps ∧
+    renderDoc { hostileMeta with ver := b!"go1.23.5<", body := .snapshot hostileGs } = .ok r :=
+  doc_renders _ (Or.inl (by decide))
+example : ∃ r, renderDoc { hostileMeta with ver := b!"go1.23.5<", body := .aggregated [{ sig := {}, ids := [1, 2], first := true }] } = .ok r ∧
+    occ b!"\"data:" r = 1 + occ b!"\"data:" (hostileMeta.footer ++ Lit.t54) := by
+  obtain ⟨ps, _, hps, _⟩ := doc_renders { hostileMeta with ver := b!"go1.23.5<", body := .aggregated [{ sig := {}, ids := [1, 2], first := true }] }
+    (Or.inl (by decide))
+  obtain ⟨r, _, _, hd, _, _, _, _, h1, _⟩ := only_data_url_is_favicon _ ps hps
+  exact ⟨_, hd, h1⟩
+/-- the only failure: a short `devel +` version with a standard-library frame -/
+example : renderDoc { ver := b!"devel +abc", body := .snapshot [{ sig := { stack := { calls := [{ location := .stdlib }] } } }] } =
+    .error .sliceBounds := by decide
 
 #print axioms htmlEscaper_safe
 #print axioms attrEscaper_safe
@@ -230,5 +387,12 @@ example : ∃ ps, contentSnapshot b!"go1.23.5"
 #print axioms complete_table
 #print axioms content_markup_is_template_markup
 #print axioms content_markup_is_template_markup_aggregated
+#print axioms doc_renders
+#print axioms doc_markup_is_template_markup
+#print axioms doc_shape
+#print axioms metadata_holes_safe
+#print axioms metadata_complete
+#print axioms only_data_url_is_favicon
+#print axioms url_holes_fixed_scheme
 
 end PP.C17
